@@ -95,5 +95,30 @@ theorem exit_at_return {tr : List String} {e : Ending} (hx : Exec Gen.solveMainB
   subst he
   simpa using h
 
+/-! ### one diagnostic row per iteration, none outside the loop -/
+
+structure QD where
+  inLoop : Bool
+  rows : Nat
+  bad : Bool
+deriving DecidableEq, Repr
+
+/-- `rows`: calls of `diagnostic_info.save_info_from_control` since the current iteration began (`current_iter += 1`);
+    `bad`: a second call in one iteration, or a call outside the main loop -/
+def mD : Mon QD := ⟨fun q a =>
+  if a == "iter+" then { q with inLoop := true, rows := 0 }
+  else if a == "after:while-True" then { q with inLoop := false, rows := 0 }
+  else if a == "diag" then { q with rows := min (q.rows + 1) 2, bad := q.bad || !q.inLoop || q.rows ≥ 1 }
+  else q⟩
+
+theorem one_row_all : allReach mD Gen.solveMainBody ⟨false, 0, false⟩ (fun q _ => !q.bad) = true := by decide +kernel
+
+/-- on every execution of solve_main (any number of iterations): `save_info_from_control` — the only method that appends a row to the
+    diagnostic table (`C18_src_diag_sites`) — is called at most once per main-loop iteration and never outside the loop -/
+theorem one_row_per_iteration {tr : List String} {e : Ending} (hx : Exec Gen.solveMainBody tr e) :
+    (mD.run ⟨false, 0, false⟩ tr).bad = false := by
+  have h := all_paths mD Gen.solveMainBody ⟨false, 0, false⟩ _ one_row_all hx
+  simpa using h
+
 end SolveMainPaths
 end Dfols
